@@ -51,8 +51,10 @@ struct Outcome{
   bool nontrivial;
   long sim_steps;      // scheduler steps / operations / ODE applies
   double sim_time;     // simulated time covered (ODE time), 0 if not meaningful
+  std::string prop;    // property the violation belongs to (engines serving several properties)
+  long evals;          // executions this run stands for (fault enumeration runs one history many times)
   Json plan_patch;     // keys to merge into the plan when it is reported (recorded schedule, ...)
-  Outcome():ok(true),event_hash(0),shape(0),nontrivial(false),sim_steps(0),sim_time(0){}
+  Outcome():ok(true),event_hash(0),shape(0),nontrivial(false),sim_steps(0),sim_time(0),evals(1){}
   void fail(const std::string& c,const std::string& s,const std::string& d){
     if(!ok) return; // first failure wins
     ok=false; cls=c; sig=s; detail=d;
